@@ -1,4 +1,6 @@
 import WireV.Sets
+import WireV.Emit
+import WireV.Sig
 /-! # WireV.Driver — line protocol of the unit tier (one request per line, one reply per line) -/
 namespace WireV
 
@@ -117,6 +119,68 @@ def runPlanner (isPlan : Bool) (toks : List Nat) : String :=
   | some (_, _) => "bad-request trailing"
   | none => "bad-request"
 
+def posSrc (calls : List Call) (p : Nat) : Nat := match calls[p]? with | some c => c.srcId | none => 999999
+
+def sigErrStr (calls : List Call) (e : Nat × Bool) : String :=
+  let t := match calls[e.1]? with | some c => c.out | none => 999999
+  if e.2 then s!"needcleanup:{t}" else s!"neederr:{t}"
+
+def Ev.str (calls : List Call) : Ev → String
+  | .call p => s!"call:{posSrc calls p}"
+  | .cleanup p => s!"cleanup:{posSrc calls p}"
+
+/-- `emit`/`run` request: sigCleanup sigErr [nfails ids…] then a plan request -/
+def runEmit (isRun : Bool) (toks : List Nat) : String :=
+  let r : Option (String × List Nat) := (do
+    let sc ← pBool
+    let se ← pBool
+    let failIds ← if isRun then pMany pNat else pure []
+    let order ← pMany pNat
+    let sets ← pMany pSet
+    let out ← pNat
+    match planLast order sets out with
+    | .ok calls =>
+      let ses := sigErrors sc se calls
+      if ses ≠ [] then
+        return "err " ++ joinWith " " (sortStrs (ses.map (sigErrStr calls)))
+      else if isRun then
+        let fails := fun p => failIds.contains (posSrc calls p) && (match calls[p]? with | some c => c.hasErr | none => false)
+        let (evs, oc) := runInj fails sc se calls
+        let ocs := match oc with
+          | .failed p nc => s!"failed:{posSrc calls p}:{b2s nc}"
+          | .ok none => "ok:noclosure"
+          | .ok (some _) => "ok:closure"
+        return joinWith " " (["run"] ++ evs.map (Ev.str calls) ++ [ocs] ++ ["|"] ++ (runClosure oc).map (Ev.str calls))
+      else
+        let e := emitInj sc se calls
+        let ebs := e.steps.filterMap (fun (st : EStep) => st.errBranch.map (fun (eb : ErrBranch) =>
+          s!"eb:{st.pos}:[{natsStr eb.cleanups}]:{b2s eb.nilCleanup}"))
+        let cl := match e.closure with | some l => s!"closure:[{natsStr l}]" | none => "closure:none"
+        return joinWith " " (["ok"] ++ ebs ++ [cl, s!"retnil:{b2s e.retNilErr}"])
+    | other => return other.str).run toks
+  match r with
+  | some (s, []) => s
+  | some (_, _) => "bad-request trailing"
+  | none => "bad-request"
+
+def rkindOf : Nat → RKind
+  | 1 => .error
+  | 2 => .cleanup
+  | _ => .other
+
+def runSig (toks : List Nat) : String :=
+  match funcOutput (toks.map rkindOf) with
+  | .ok o => s!"ok {b2s o.cleanup}{b2s o.err}"
+  | .error .noReturn => "err noreturn"
+  | .error .second => "err second"
+  | .error .third => "err third"
+  | .error .tooMany => "err toomany"
+
+def runDup (toks : List Nat) : String :=
+  match dupParam toks with
+  | none => "ok"
+  | some t => s!"err dup:{t}"
+
 def parseNats (ws : List String) : Option (List Nat) := ws.mapM String.toNat?
 
 def handleLine (line : String) : String :=
@@ -128,6 +192,18 @@ def handleLine (line : String) : String :=
     | none => "bad-request nat"
   | "plan" :: rest => match parseNats rest with
     | some ns => runPlanner true ns
+    | none => "bad-request nat"
+  | "sig" :: rest => match parseNats rest with
+    | some ns => runSig ns
+    | none => "bad-request nat"
+  | "dupparam" :: rest => match parseNats rest with
+    | some ns => runDup ns
+    | none => "bad-request nat"
+  | "emit" :: rest => match parseNats rest with
+    | some ns => runEmit false ns
+    | none => "bad-request nat"
+  | "run" :: rest => match parseNats rest with
+    | some ns => runEmit true ns
     | none => "bad-request nat"
   | _ => "bad-op"
 
